@@ -776,9 +776,19 @@ func (g *G) genFloat(t *Type, d int) expr {
 var cmpOps = []string{"==", "!=", "<", "<=", ">", ">="}
 
 func (g *G) genBool(d int) expr {
-	switch g.n(0, 6, "boolForm") {
+	switch g.n(0, 7, "boolForm") {
 	case 0:
 		return g.leaf(TBool)
+	case 7:
+		// == / != on whole arrays and structs
+		vs := g.varsOf(func(v *Var) bool {
+			return (v.T.K == KArray && v.T.Elem.IsScalar() && !g.excl(ExclArrayEq)) || (v.T.K == KStruct && !g.excl(ExclStructEq))
+		})
+		if len(vs) > 0 {
+			v := vs[g.n(0, len(vs)-1, "eqV")]
+			g.feat("composite-eq")
+			return expr{tf("(%s %s %s)", v.Name, cmpOps[g.n(0, 1, "eqop")], g.value(v.T, 1)), false}
+		}
 	case 1, 2:
 		t := scalarTypes[g.n(0, len(scalarTypes)-1, "cmpT")]
 		a, b := g.pair(t, d)
